@@ -1,8 +1,12 @@
 """C09 -- junctions cut off from all sources are zeroed; connected ones never are.
 
-Lean side: Model/Isolation.lean (M8) + Props/C09.lean: the transliterated C++ search clears exactly the nodes reachable
-through `data == 1` entries, the Python CSR bookkeeping keeps "entry = 1 iff some link of the node pair is not Closed" over
-every history of status changes, hence flagged-isolated == cut off, for one simulator object.
+Lean side: Model/Isolation.lean (M8), Model/IsolationRun.lean (run level), Model/IsolationProg.lean (source level) + Props/C09.lean:
+the program text of the C++ search means `checkIsolated`, which clears exactly the nodes reachable through `data == 1` entries; the
+Python CSR bookkeeping keeps "entry = 1 iff some link of the node pair is not Closed" over every history of status changes and
+restarts; hence flagged-isolated == cut off, at every reported step of every run.
+
+Translators (T), every run: network_isolation.cpp -> Gen/IsolationShape.lean `cppSearch` (tokenizer + recursive descent); core.py ->
+statement skeletons / iterated registries / call order of run_sim (Python ast).
 
 Ties checked on every run (C):
   (a) random flat CSR inputs straight into the freshly compiled `check_for_isolated_junctions` vs `checkIsolated`;
@@ -10,7 +14,9 @@ Ties checked on every run (C):
       of control-action status changes driven through the REAL `WNTRSimulator._initialize_internal_graph /
       _update_internal_graph / _get_isolated_junctions_and_links` (+ the real ControlChangeTracker) vs the Lean model
       (CSR arrays, multi-link table, tracker change set, flags, `_prev_isolated_*`) and vs an independent BFS over link statuses;
-  (c) full short `WNTRSimulator.run_sim` runs with time controls closing / opening links: the statement's oracle on the results.
+  (c) full short `WNTRSimulator.run_sim` runs with time controls closing / opening links (pipes, CV pipes, head pumps, PRV / PSV / FCV / TCV,
+      tank-limit closures, pause / continue, rerun): the statement's oracle on the results, and every bookkeeping call observed in-process
+      (class Trace) replayed through the Lean model (`net` line: state after every call; `legs` line: the reported rows of `runLegs`).
 """
 import json
 import os
@@ -1413,6 +1419,35 @@ def gen_elem_run(rng, want=None, pause_mode=None):
     return sc
 
 
+def gen_tank_drain_run(rng):
+    """R - J.. -[cut]- J.. - small tank: the reservoir side is cut off for a while, the zone lives on the tank until it reaches its
+    minimum level, WNTR's own tank control then closes the tank's link (internal status) and the zone is cut off from everything;
+    later the reservoir is reconnected and the tank refills"""
+    k1, k2 = rng.randint(1, 2), rng.randint(1, 3)
+    n = 1 + k1 + k2 + 1
+    kinds = ["R"] + ["J"] * (k1 + k2) + ["T"]
+    links = []
+    for v in range(1, n):
+        links.append((v - 1, v) if rng.random() < 0.5 else (v, v - 1))
+    lk = [["pipe"] for _ in links]
+    if rng.random() < 0.5:
+        j = k1 + rng.randrange(k2) if k2 > 1 else k1
+        if j != k1 and j != len(links) - 1:
+            lk[j] = [rng.choice(["tcv", "hpump"])] + ([round(rng.uniform(0, 20), 2), ACTIVE] if True else [])
+            if lk[j][0] == "hpump":
+                lk[j] = ["hpump", 0.05, 10.0]
+                links[j] = (j, j + 1)
+    cut = k1
+    t_close = rng.randint(1, 2)
+    t_open = t_close + rng.randint(3, 5)
+    steps = t_open + rng.randint(2, 3)
+    init = [ACTIVE if x[0] == "tcv" else OPEN for x in lk]
+    return dict(n=n, kinds=kinds, links=links, lk=lk, init=init, steps=steps, ctrls=[(cut, t_close, CLOSED), (cut, t_open, OPEN)],
+                pdd=False, demands=[round(rng.uniform(0.001, 0.003), 6) for _ in range(n)], elev=[round(rng.uniform(0, 5), 2) for _ in range(n)],
+                tank={"elevation": 20.0, "init_level": round(rng.uniform(1.0, 2.0), 2), "min_level": 0.5, "max_level": 6.0,
+                      "diameter": round(rng.uniform(2.0, 4.0), 2)})
+
+
 def build_run_wn(wntr, sc):
     from wntr.network.controls import Control, ControlAction, SimTimeCondition
 
@@ -1421,7 +1456,8 @@ def build_run_wn(wntr, sc):
         if k == "J":
             wn.add_junction("N%d" % i, base_demand=sc["demands"][i], elevation=sc["elev"][i])
         elif k == "T":
-            wn.add_tank("N%d" % i, elevation=30.0, init_level=10.0, min_level=0.0, max_level=40.0, diameter=40.0)
+            tk = sc.get("tank", {"elevation": 30.0, "init_level": 10.0, "min_level": 0.0, "max_level": 40.0, "diameter": 40.0})
+            wn.add_tank("N%d" % i, **tk)
         else:
             wn.add_reservoir("N%d" % i, base_head=70.0)
     names = {CLOSED: "CLOSED", OPEN: "OPEN", ACTIVE: "ACTIVE"}
@@ -1583,36 +1619,57 @@ class C09(Check):
     extra_targets = ["WntrModel.Model.Isolation", "WntrModel.Model.IsolationStatic", "WntrModel.Model.IsolationRun"]
     manifest = dict(
         category="proof",
-        text="Lean theorems for every finite graph / multigraph and every history of status changes: the transliterated C++ search "
-        "clears exactly the nodes reachable through data==1 entries (dfs_reaches_exactly); the CSR kept by "
-        "_initialize_internal_graph/_update_internal_graph has entry 1 iff some link of the node pair is not Closed "
-        "(csr_init_correct, csr_update_preserves, incl. parallel links); hence a junction is flagged isolated iff it has no path of "
-        "non-closed links to a tank/reservoir, stale flags are cleared (isolated_iff_cut_off, connected_never_isolated, "
-        "reconnect_restores) and flagged junctions/links store zeros. The tie is a differential run of the compiled C++ search, "
-        "the real simulator bookkeeping and full short simulations against the Lean driver and an independent reachability.",
+        text="Lean theorems for every finite multigraph of pipes, pumps and valves and every history of status changes: (source level) the "
+        "statement skeleton parsed on every run from network_isolation.cpp IS the reference program (cpp_search_is_reference, decide) whose "
+        "interpretation equals checkIsolated on every input (cpp_search_means_checkIsolated), which clears exactly the nodes reachable "
+        "through data==1 entries (dfs_reaches_exactly, cpp_search_reaches_exactly; the while loop always ends on the empty set, "
+        "search_fuel_suffices); the ast skeletons of _initialize_internal_graph / _get_csr_data_index / _update_internal_graph / "
+        "_get_isolated_junctions_and_links, the registries they iterate (pipes, pumps, valves; all junctions and ALL links for the "
+        "previously-isolated seeds), the head and the loop body of run_sim are the ones the model transliterates (python_shape_is_reference); "
+        "(bookkeeping) the CSR entry of a node pair is 1 iff some link of the pair is not Closed under the status property of its class "
+        "(Pipe/Pump: internal Closed wins, else user; Valve: user Closed/Open win, else internal; Open, Active, CV count as open) over every "
+        "history incl. restarts of run_sim on a network that still carries flags (csr_init_correct, csr_update_preserves, "
+        "restart_restores_invariant), hence flagged == cut off (isolated_iff_cut_off, connected_never_isolated, reconnect_restores); (run "
+        "level) for every list of legs and passes of the loop body with arbitrary presolve / postsolve / feasibility status actions, "
+        "every reported row shows a junction as zero iff by the statuses reported in that row no path of non-Closed links joins it to a "
+        "tank or reservoir (reported_zero_iff_cut_off, cut_off_reported_zero, connected_reported_solved_run). Ties checked on every "
+        "run: the translators; the compiled search, the real bookkeeping on random multigraphs with all link classes, histories and restarts "
+        "(real head of run_sim), and every call of the bookkeeping observed inside real runs (pipes, CV pipes, head pumps, PRV/PSV/FCV/TCV, "
+        "tank-limit closures, pause/continue while cut off) replayed through the Lean driver; the statement's oracle on the results.",
         design_ref="DESIGN.md §5 C09, §4 M8",
-        note="trusted: Lean kernel, axioms {propext, Classical.choice, Quot.sound}; the correspondence harness. Modelled, not verified: "
-        "scipy's csr_matrix constructor (its structure contract StructOk is a hypothesis of the bookkeeping theorems and is evaluated on every "
-        "generated case), SWIG marshalling, the hydraulic solve (full runs are judged by the statement's oracle only). Theorems exclude "
-        "self-loops (accepted by WNTR, rejected by EPANET; exercised by the correspondence) and speak of ONE simulator object: "
-        "a restart with stale flags is C10's subject.",
-        technique="Lean 4 proof (invariants + fuel sufficiency + induction over histories) + differential run against the Lean driver",
+        note="trusted: Lean kernel, axioms {propext, Classical.choice, Quot.sound}; the translators (tokenizer + recursive descent for the C++ "
+        "function, ast tables for core.py) and the correspondence harness. Modelled, not verified: C++ int/long arithmetic and std::set "
+        "(the interpreter works on unbounded integers and a duplicate-free list; counted loops read their bounds once, justified by "
+        "reference_program_wf), scipy's csr_matrix constructor (structure contract StaticP is a hypothesis, evaluated on every generated "
+        "case), SWIG marshalling, the hydraulic solve (full runs are judged by the statement's oracle only; generated hydraulics are kept "
+        "benign: control valves are bridges, at most one FCV, no tank next to two control valves). The Python skeletons are tied to the "
+        "Lean functions by reading (token = group of source statements), not by an interpreter; only the C++ search has one. The order of "
+        "the calls inside run_sim is tied by the generated token list and by the grammar check on the observed traces. Theorems exclude "
+        "self-loops (accepted by WNTR, rejected by EPANET; exercised by the correspondence). reset_initial_values between two runs of one "
+        "simulator is exercised, not modelled.",
+        technique="Lean 4 proof (translator-regenerated program skeletons + interpreter refinement + invariants over histories) + differential "
+        "runs against the Lean driver (in-process call traces of real simulations)",
     )
     rule = (
         "obligations: theorems of Props/C09.lean. correspondence cases: (a) one random CSR input to the compiled search; (b) one random "
-        "multigraph + initial statuses + history of status actions/updates/isolation calls through the real WNTRSimulator bookkeeping; "
-        "(c) one full WNTRSimulator run with time controls. distinct = distinct generated inputs; non-trivial = (a) at least one data==1 entry "
-        "and one source, (b) at least one isolated junction at some point of the history or a parallel pair, (c) at least one isolated step"
+        "multigraph of pipes / CV pipes / power and head pumps / TCV, PRV, PSV, FCV + initial statuses + history of status actions, graph "
+        "updates, isolation calls and run_sim restarts through the real WNTRSimulator; (c) one full WNTRSimulator run (or paused and "
+        "continued pair of runs) with time controls, its bookkeeping calls traced and replayed. distinct = distinct generated inputs; "
+        "non-trivial = (a) at least one data==1 entry and one source, (b) at least one isolated junction at some point of the history or a "
+        "parallel pair, (c) at least one isolated reported step"
     )
     trusted_base = [
-        "correspondence harness harness/props/c09.py (drives the real WNTRSimulator methods and the compiled extension in-process)",
+        "translators in harness/props/c09.py (C++ tokenizer + recursive descent; Python ast statement tables)",
+        "correspondence harness harness/props/c09.py (drives the real WNTRSimulator methods and the compiled extension, wraps the "
+        "bookkeeping functions in-process)",
         "scipy.sparse.csr_matrix construction: structure contract (sorted duplicate-free rows) evaluated per case, not proved",
-        "SWIG marshalling of numpy arrays into check_for_isolated_junctions (exercised)",
+        "SWIG marshalling of numpy arrays into check_for_isolated_junctions (exercised); C++ integer and std::set semantics (modelled)",
     ]
     assumptions = [
         "link status changes during a run happen only through control actions that notify the ControlChangeTracker",
-        "networks of the bookkeeping correspondence are built by add_* calls only (get_links_for_node order = registry order)",
-        "one simulator object on a network whose _is_isolated flags are all False (fresh / reset_initial_values); restarts are C10",
+        "networks of the correspondence are built by add_* calls only (get_links_for_node order = registry order)",
+        "a network carries _is_isolated flags only on junctions and links (tanks / reservoirs are never flagged: invariant srcOk)",
+        "full-run hydraulics are benign (non-convergence on the generated networks is judged as rest-not-solved)",
     ]
 
     def translate(self, ctx):
@@ -1926,6 +1983,8 @@ class C09(Check):
                 extra.append(dict(sc, pause=1 + (i // 3) % (sc["steps"] - 1), intvals=(i % 2 == 0)))
         runs += extra
         runs += elem
+        # a zone that lives on a small tank until WNTR's own tank control closes the tank's link (internal status)
+        runs += [gen_tank_drain_run(rng) for _ in range(4 if q else 60)]
         return csr, nets, runs
 
     def correspondence(self, ctx):
